@@ -4,7 +4,7 @@ import FlVerif.Lemmas.Antecedent
 import FlVerif.Lemmas.CodeLoadAnte
 import FlVerif.Lemmas.CodeDegree
 import FlVerif.Lemmas.CodeDegreeAggr
-import FlVerif.Lemmas.CodeWave5ZRule       -- `Proposition.__str__`, `Antecedent.prefix / infix / postfix`
+import FlVerif.Lemmas.CodeWave5ZRuleLaw    -- `Proposition.__str__`, `Antecedent.prefix / infix / postfix`, `postfix_of_load`
 
 /-! # C06 — Rule antecedents mean what the rule grammar says
 
@@ -123,6 +123,20 @@ theorem code_antecedentPostfix (expression node : Py.Load.Expression) :
     | .error k => Gen.Code.Antecedent_postfix.run expression node {} = .error k.toPy
     | .ok s => ∃ σ, Gen.Code.Antecedent_postfix.run expression node {} = .ok σ ∧ σ.ret = some s :=
   CodeW5Z.code_antecedentPostfix expression node
+
+/-- the state machine of `Antecedent.load` keeps the tokens: the postfix form of the tree it builds is the token list -/
+theorem load_keeps_postfix (e : EngineInfo) (pf : List String) (a : ANode) (h : antecedentLoadPostfix e pf = .ok a) :
+    a.pfx = pf :=
+  CodeW5Z.pfx_of_load e pf a h
+
+/-- **`Antecedent.postfix` of the expression loaded from a postfix text gives the text back, token for token.**  For
+    every engine, every token list `pf` that the state machine of `Antecedent.load` accepts and the expression object
+    `x` that the translated loader stores for it (`code_antecedentLoad`: `exprA x` is the tree of the model), the
+    translated `Antecedent.postfix()` returns `" ".join(pf)`. -/
+theorem postfix_of_load (e : EngineInfo) (pf : List String) (a : ANode) (x : Py.Load.Expression)
+    (hl : antecedentLoadPostfix e pf = .ok a) (hx : exprA x = some a) :
+    ∃ σ, Gen.Code.Antecedent_postfix.run x .none {} = .ok σ ∧ σ.ret = some (Py.joinSp pf) :=
+  CodeW5Z.antecedent_postfix_of_load e pf a x hl hx
 
 /-! ## grammar: every writing of every antecedent loads to that antecedent -/
 
